@@ -1,6 +1,8 @@
 import SuxModel.Base.Proto
 import SuxModel.RankSel.Spec
 import SuxModel.RankSel.Layer
+import SuxModel.RankSel.Rank9.Model
+import SuxModel.RankSel.RankSmall.Model
 /-!
 # Protocol runner `ranksel` (C01, C02, C12)
 
@@ -48,8 +50,11 @@ def capsOf (sid : String) : Option Caps :=
 
 /-- model of one layer over the bit vector `(ws, len)` whose number of ones is `n1`;
 `none` = this layer kind is not modelled yet (its queries are answered by the specification) -/
-def modelOf (_ws : Array Nat) (_len _n1 : Nat) (_k : LayerKind) : Option LayerModel :=
-  none
+def modelOf (ws : Array Nat) (len n1 : Nat) (k : LayerKind) : Option LayerModel :=
+  match k with
+  | .r9 => some (Rank9.layer ws len n1)
+  | .rs k => some (RankSmall.layer ws len n1 k)
+  | _ => none
 
 structure RSt where
   len : Nat := 0
